@@ -437,20 +437,26 @@ class TrajectoryConstraintsRemover(engines.engine.Engine, CompilerMixin):
         return env.expression_manager.Or(gamma1, conjunction)
 
     def _gamma(self, env, literal, action):
+        # the condition under which the action makes the given literal true
+        em = env.expression_manager
+        if literal.is_not():
+            fluent, positive = literal.arg(0), False
+        else:
+            fluent, positive = literal, True
         disjunction = []
         for eff in action.effects:
-            cond = eff.condition
-            if eff.value.is_false():
-                eff = env.expression_manager.Not(eff.fluent)
-            else:
-                eff = eff.fluent
-            if literal == eff:
-                if cond.is_true():
-                    return env.expression_manager.TRUE()
+            if eff.fluent != fluent:
+                continue
+            # the assigned value can be any Boolean expression, not only a constant
+            value = eff.value if positive else em.Not(eff.value)
+            cond = em.And(eff.condition, value).simplify()
+            if cond.is_true():
+                return em.TRUE()
+            if not cond.is_false():
                 disjunction.append(cond)
         if not disjunction:
-            return env.expression_manager.FALSE()
-        return env.expression_manager.Or(disjunction)
+            return em.FALSE()
+        return em.Or(disjunction)
 
     def _regression(self, env, phi, action):
         if phi.is_false() or phi.is_true():
